@@ -46,6 +46,13 @@ def Chart.wbLineEnds (c : Chart α) (wbC : α) : (α × α) × (α × α) :=
   let e := dbTempAndHrFromWbRh wbC 100.0 c.pressure
   ((c.tX (c.ofC st), c.baseY - 1e-6), (c.tX (c.ofC e.1), c.hrY e.2))
 
+/-- `PsychrometricChart.data_points`: one point for every (temperature, humidity) pair of the chart's data, in the
+    order of the data.  The chart's limits (minimum / maximum temperature, maximum humidity ratio) play no part:
+    a state that does not fit on the chart keeps its entry (only the coloured mesh leaves it out), so that entry
+    `i` is the position of state `i`.  `drv_c09 datapts` executes it. -/
+def Chart.dataPoints (c : Chart α) (temps rhs : List α) : List (α × α) :=
+  (temps.zip rhs).map fun q => c.dataPoint q.1 q.2
+
 end generic
 
 end Psychro
